@@ -484,7 +484,7 @@ theorem export_table_of_tree (cs : List Tree) (ref : Nat → UInt64) (nums : Lis
 -- non-vacuity: root = { file, dir { file, hard link }, file }: 5 inodes, the calls cover 1..4, the root is 5
 open Sqfs.Numbering Sqfs.C17Export in
 example :
-    let cs : List Tree := [.file, .dir [.file, .hlink], .file]
+    let cs : List Tree := [.file, .dir [.file, .hlink 0], .file]
     (numberRoot cs).2 = 5 ∧ entriesT (numberRoot cs).1 = [2, 3, 1, 4]
       ∧ (∀ m ∈ entriesT (numberRoot cs).1, 1 ≤ m ∧ m ≤ (numberRoot cs).2) := by decide
 
